@@ -165,6 +165,61 @@ def inventory_reads_are_pure(ctx, repo, rule):
     ctx.floor(rule, "device-list reads on the model facades", n, 20)
 
 
+def periodic_update_survives_unanswered_requests(ctx, repo, rule):
+    """the same pass with the REAL connection object (built by its constructor, connected, answering pings) whose protocol
+    answers none of the requests the pass makes (water care, reminders: retries used up), and the real water-care and
+    reminders managers built by their constructors: whatever those queries return on failure, the pass must still reach
+    the mode decision - set_config_mode(any pump or blower on) - and must not end the update task."""
+    from .facts import ConnectionModel
+    f = repo.method("GeckoAsyncFacade", "_facade_update")
+    n = 0
+    for pumps in ((True,), (False,)):
+        cm = ConnectionModel(repo, connect=False)
+        interp = cm.it
+        got, sleeps = [], []
+        inner = interp.call_hook
+
+        def hook(it, node, callee, args, kwargs, got=got, sleeps=sleeps, inner=inner):
+            fn = getattr(node, "func", None)
+            nm = fn.id if isinstance(fn, ast.Name) else (fn.attr if isinstance(fn, ast.Attribute) else "")
+            if nm == "set_config_mode":
+                got.append(args[0] if args else kwargs.get("active"))
+                return None
+            if nm in ("config_sleep", "sleep"):
+                sleeps.append(1)
+                if len(sleeps) > 1:
+                    raise PyRaise("asyncio.CancelledError", node)
+                return None
+            return NotImplemented       # every coroutine of the spa is interpreted (the connection model would only record it)
+        interp.call_hook = hook
+        spa = cm.spa
+        spa.attrs["_protocol"] = Obj(None, {"get": Native(lambda a, k: None, "get")}, name="protocol")     # nobody answers
+        interp.attr_hook = lambda _i, b, a_: (True if (b is spa and a_ in ("is_connected", "is_responding_to_pings", "isopen")) else NotImplemented)
+        mk = lambda on: Obj(None, {"is_on": on}, name="device")  # noqa: E731
+        attrs = init_defaults(repo, "GeckoAsyncFacade")
+        taskman = Obj(None, {"add_task": Native(lambda a, k: None, "add_task"), "cancel_key_tasks": Native(lambda a, k: None, "cancel_key_tasks"),
+                             "unique_id": "SPA-ID", "spa_name": "My spa", "name": "My spa"}, name="taskman")
+        attrs.update({"_pumps": [mk(x) for x in pumps], "_blowers": [], "_lights": [mk(True)], "_spa": spa, "_taskman": taskman})
+        me = Obj(repo.cls("GeckoAsyncFacade"), attrs)
+        try:
+            for attr_, cname_ in (("_water_care", "GeckoWaterCare"), ("_reminders_manager", "GeckoReminders")):
+                me.attrs[attr_] = interp.apply(ClassRef(repo.cls(cname_)), [me], {})
+            interp.steps = 0
+            interp.call(f, me, [])
+            outcome = None
+        except PyRaise as e:
+            outcome = None if "CancelledError" in e.what else e.what
+        except Undecided as e:
+            raise AnalysisError(f"{f.qual} on the model facade with a real connection whose requests go unanswered: {e}")
+        want = any(pumps)
+        n += 1
+        ctx.ob(rule, f"{f.qual}::requests-unanswered::pumps={list(pumps)}", outcome is None and got and all(isinstance(g, bool) and g == want for g in got),
+               f"{f.qual}, one pass with pumps on={list(pumps)} while the spa answers pings but none of the pass's requests: outcome {outcome!r}, configuration switches {got} - expected the pass to go on to "
+               f"set_config_mode({want}): a query result the managers cannot take ends the update task before the mode decision (a facade built while a pump runs never selects the active table)", f.loc,
+               sample={"rule": rule, "pumps": list(pumps), "switches": [str(g) for g in got], "outcome": str(outcome)})
+    ctx.floor(rule, "periodic-update passes with unanswered requests", n, 2)
+
+
 def periodic_update_keeps_the_mode(ctx, repo, rule):
     """the facade's periodic update on a model facade (devices with fixed on/off states, a spa that answers pings or does
     not, water care and reminders stand-ins): one pass of the loop is interpreted (the second sleep ends it).  Whatever
